@@ -13,6 +13,11 @@
     ser xml_write_norm <cdata> <gt> <indent> <decl> <doctype> <path> <tree>
         `serialize_xml_write_with_normalizer` called directly, same normalizer: outcome and the bytes written
 
+    ser xml_write_fail <k> <cdata> <gt> <indent> <decl> <doctype> <path> <tree>
+        `serialize_xml_write` into `FailingWriter { fail_at_call: k }` (`serializeXmlWriteW (budget (some k))`):
+        outcome (`err:Io` at the refused call) and the bytes the writer holds
+    ser write_fail <k> <path> <tree>      `Xot::write` into the same writer
+
   <cdata>, <suppress> : `-` or comma-separated name ids;  <gt> : 0 | 1
   <indent>  : `-` (no indentation) | `i` (empty suppress list) | `i<ids>`
   <decl>    : `-` | `d/<enc>/<standalone>` with <enc> = `-` | string, <standalone> = `-` | `y` | `n`
@@ -132,6 +137,16 @@ def handleSer (st : DState) : List String → Option String
         ← parseBool01 gt⟩
       let (t, p) ← parseTreeAt path toks
       some (showWritten st.env (serializeXmlWriteWith (normEscapers fullwidthNorm) st.env pr t p))
+  | "xml_write_fail" :: k :: cd :: gt :: ind :: decl :: dt :: path :: toks => do
+      let k ← k.toNat?
+      let pr : XmlParams := ⟨← parseIndent ind, ← parseNatList cd, ← parseDecl decl, ← parseDoctype dt,
+        ← parseBool01 gt⟩
+      let (t, p) ← parseTreeAt path toks
+      some (showWritten st.env (serializeXmlWriteW (.budget (some k)) xmlEscapers st.env pr t p))
+  | "write_fail" :: k :: path :: toks => do
+      let k ← k.toNat?
+      let (t, p) ← parseTreeAt path toks
+      some (showWritten st.env (serializeWriteW (.budget (some k)) xmlEscapers st.env {} t p))
   | "xml_write" :: cd :: gt :: ind :: decl :: dt :: path :: toks => do
       let pr : XmlParams := ⟨← parseIndent ind, ← parseNatList cd, ← parseDecl decl, ← parseDoctype dt,
         ← parseBool01 gt⟩
